@@ -308,6 +308,9 @@ pub fn w_schema() -> Schema {
                     at("k y", Ty::Bool, false),
                     at("fav", Ty::Ent("Color".into()), false),
                     at("cols", Ty::Set(Box::new(Ty::Ent("Color".into()))), false),
+                    // enum ids inside non-literal set elements
+                    at("pals", Ty::Set(Box::new(Ty::Set(Box::new(Ty::Ent("Color".into()))))), false),
+                    at("recs", Ty::Set(Box::new(Ty::Rec(vec![at("c", Ty::Ent("Color".into()), true), at("o", Ty::Long, false)]))), false),
                 ],
                 tags: Some(Ty::Str),
                 enum_ids: None,
@@ -336,7 +339,7 @@ pub fn w_schema() -> Schema {
                 member_of: vec!["readers".into()],
                 principals: vec!["User".into()],
                 resources: vec!["Doc".into()],
-                context: vec![at("n", Ty::Long, true), at("who", Ty::Ent("User".into()), false), at("col", Ty::Ent("Color".into()), false), at("flag", Ty::Bool, false)],
+                context: vec![at("n", Ty::Long, true), at("who", Ty::Ent("User".into()), false), at("col", Ty::Ent("Color".into()), false), at("flag", Ty::Bool, false), at("rec", Ty::Rec(vec![at("a", Ty::Long, true), at("b", Ty::Long, false)]), false)],
             },
             ActDef { id: "edit".into(), member_of: vec![], principals: vec!["User".into()], resources: vec!["Doc".into(), "Group".into()], context: vec![] },
             ActDef { id: "paint".into(), member_of: vec![], principals: vec!["Color".into()], resources: vec!["Color".into(), "Pal".into()], context: vec![at("cs", Ty::Set(Box::new(Ty::Ent("Color".into()))), false)] },
